@@ -41,3 +41,11 @@ add("C26", "model_checking",
     "for with/without init); the structured flow and the resulting subroutines (semantics of the emitted C++ switch) are both interpreted under "
     "a symbolic sequence of condition outcomes; event traces must be equal, labels consecutive, every target defined.",
     "Flow shapes are a finite family enumerated by the solver (stated honestly); only the outcomes are genuinely symbolic. Bounds in evidence.")
+
+add("C17", "model_checking",
+    "bounded symbolic execution (CrossHair/z3) of fix_for_utf16_regex_in_place on tree skeletons with symbolic code points and a symbolic probe string; z3 (QF_LIA) language comparison for corpus patterns",
+    "The real UTF-16 rewriting runs on trees whose characters and range end points are symbolic over the whole code space; a reference matcher decides "
+    "match(original, s) and match(rewritten, utf16(s)) for a symbolic probe string; surrogate arithmetic is encoded division-free, so the "
+    "five-way range split is decided for ALL astral ranges. Corpus patterns go through jsonschema.main.fix_pattern_for_utf16 and a z3 query per probe shape.",
+    "Seven skeletons x quantifiers, probe <= 2 (3) scalars; trees mirror what the parser accepts (replayed at text level through retree.parse and re). "
+    "Three open known findings ('.'/complemented sets and BMP ranges spanning the surrogate block on astral input).")
